@@ -112,6 +112,10 @@ def type_lattice(tier):
             ts.append(f"{k}[str, {h}]")
         for kk in KEYS[1:]:
             ts.append(f"{k}[{kk}, H1]")
+    # converted keys over conversion-free values: only the keys need a pass, the mapping is still rebuilt
+    for k in (MAPS if tier == "thorough" else ["Dict", "dict", "Mapping", "collections.OrderedDict"]):
+        for kk in ("H1", "datetime.date"):
+            ts.append(f"{k}[{kk}, int]")
     ts += ["collections.Counter[str]", "Counter[H1]", "collections.Counter[int]"]
     for h in HOLES:
         ts.append(f"Tuple[{h}, ...]")
